@@ -27,7 +27,7 @@ RULE = ("cases = (dataset, 1-4 variables with domains, condition tree, selection
         "when all query variables are selected, and per-row for selected expressions. Non-trivial = >=2 variables, some "
         "leaf relates two variables or there is a different-variable disjunction, and the satisfying set is a non-empty "
         "proper subset of the product; distinct = distinct canonical JSON.")
-BUDGET = {"quick": (8, 900), "thorough": (16, 8000)}
+BUDGET = {"quick": (8, 1400), "thorough": (16, 8000)}
 ASSUMPTIONS = ["each variable has its own container or shares one list object with another variable (never a shared "
                "one-shot iterator)", "conditions never raise under Python semantics (by construction)"]
 
